@@ -46,8 +46,9 @@ FOOTPRINT = {
             ('supp/assistant.py', ['list_packages', 'assist']), ('supp/util.py', ['split_pkg', 'join_pkg', '_join_level_pkg'])],
     'C08': ANALYSIS + [('supp/assistant.py', ['*']), ('supp/linter.py', ['*']), ('supp/util.py', UTIL_MARK)],
     'C09': [('supp/project.py', ['*']), ('supp/module.py', ['*']), ('supp/name.py', ['ImportedName.*'])],
-    'C10': [('supp/linter.py', ['*'])],
-    'C11': [('supp/scope.py', ['SourceScope.find_id_loc', 'FuncScope.__init__', 'ClassScope.__init__']),
+    'C10': [('supp/linter.py', ['*']), ('supp/scope.py', ['SourceScope.find_id_loc', 'SourceScope.alias_start']),
+            ('supp/nast.py', ['extract_visitor.visit_Import', 'extract_visitor.visit_ImportFrom'])],
+    'C11': [('supp/scope.py', ['SourceScope.find_id_loc', 'SourceScope.alias_start', 'FuncScope.__init__', 'ClassScope.__init__']),
             ('supp/util.py', ['splitlines', 'Source.*']),
             ('supp/nast.py', ['extract_visitor.visit_Import', 'extract_visitor.visit_ImportFrom'])],
     'C12': ANALYSIS + [('supp/assistant.py', ['assist', 'list_packages']), ('supp/util.py', UTIL_MARK)],
